@@ -100,7 +100,7 @@ def build_cases(reg, contract, fnode):
 
 def run_path(src, reg, contract, fnode, fglobs, case_builder, prefix, opts):
     key = contract.key
-    ctx = Ctx(prefix, axioms=prelude.axioms(getattr(contract.cls, 'axioms', ())), timeout_ms=opts.get('branch_ms', 3000),
+    ctx = Ctx(prefix, axioms=prelude.axioms(getattr(contract.cls, 'axioms', ())), timeout_ms=opts.get('branch_ms', 400),
               fname=key)
     ip = Interp(ctx, src, reg)
     ip.verifying = key
@@ -113,6 +113,16 @@ def run_path(src, reg, contract, fnode, fglobs, case_builder, prefix, opts):
         ctx.ghost['requires_done'] = len(ctx.pc)
         if not ctx.feasible():
             return ctx, 'vacuous'
+        # C07 allocation ghost: bound on the size argument of allocating primitives
+        par = contract
+        while par is not None:
+            f = par.cls.__dict__.get('alloc_limit')
+            if f is not None:
+                af = reg.side_ast(getattr(f, '__func__', f))
+                names = [a.arg for a in af.node.args.args]
+                ctx.ghost['alloc_limit'] = ip.call_ast(af, [params[n] for n in names], {})
+                break
+            par = reg.get(par.extends) if par.extends else None
         init_copy = snapshot(dict(params))
         old = Old(snapshot(dict(params)))
         ctx.ghost['old'] = old
@@ -329,6 +339,8 @@ def verify_function(src, reg, key, opts=None):
                 res.vacuous.append(label)
     except Unsupported as u:
         res.undecided = str(u)
+        if os.environ.get('PYVC_DEBUG'):
+            traceback.print_exc()
     except Exception as ex:  # noqa: BLE001
         res.error = f'{type(ex).__name__}: {ex}\n{traceback.format_exc()}'
     res.time_s = time.time() - t0
